@@ -10,8 +10,9 @@
  *     0<n>   n all-zero blocks (sparse)
  *     +X<n>  tail of n bytes (n < block size) of pattern X (upper: compressible, lower: incompressible)
  *     !<n>   n full blocks on which the toy compressor fails (failure scenarios)
- *   file prefix flags: 'F' = DONT_FRAGMENT, 'D' = DONT_DEDUPLICATE for that file (e.g. "F:a2+q5")
- * Oracle: output file bytes, fragment table and every inode == serial-pool run of the same scenario.
+ *   file prefix flags: 'F' = DONT_FRAGMENT, 'D' = DONT_DEDUPLICATE, 'C' = DONT_COMPRESS for that file (e.g. "F:a2+q5")
+ * Oracle: output file bytes, fragment table and every inode == serial-pool run of the same scenario, and the serial-pool
+ * result itself is the same for backlog 1, the given backlog and an unbounded backlog (the image must not depend on -Q).
  */
 #include "lib/util/src/threadpool.c"
 #include "lib/sqfs/src/block_processor/internal.h"
@@ -197,6 +198,7 @@ static void parse_scenario(const char *s)
 			for (; s < colon; ++s) {
 				if (*s == 'F') f->flags |= SQFS_BLK_DONT_FRAGMENT;
 				if (*s == 'D') f->flags |= SQFS_BLK_DONT_DEDUPLICATE;
+				if (*s == 'C') f->flags |= SQFS_BLK_DONT_COMPRESS;
 			}
 			s = colon + 1;
 		}
@@ -501,6 +503,20 @@ int harness_main(int argc, char **argv)
 
 	serial_mode = 1;
 	int rref = run_scenario(1, backlog, &ref);
+	if (!failing && rref == 0) {
+		/* the result must not depend on how far dequeuing lags behind submitting */
+		static snap_t alt;
+		static const int others[2] = { 1, 1000 };
+		for (int k = 0; k < 2; ++k) {
+			if (others[k] == backlog) continue;
+			int ralt = run_scenario(1, others[k], &alt);
+			if (ralt != 0)
+				vs_fail(VS_ORACLE, "serial run with backlog %d failed with %d, with backlog %d it succeeded", others[k], ralt, backlog);
+			if (alt.out_size != ref.out_size || memcmp(alt.out, ref.out, ref.out_size) != 0 || strcmp(alt.desc, ref.desc) != 0)
+				vs_fail(VS_ORACLE, "serial pool: result with backlog %d differs from the result with backlog %d (sizes %zu vs %zu)\n %s\n %s",
+					others[k], backlog, alt.out_size, ref.out_size, alt.desc, ref.desc);
+		}
+	}
 	serial_mode = 0;
 	memset(cur_block, 0, sizeof(cur_block));
 	memset(cur_ret, 0, sizeof(cur_ret));
